@@ -90,6 +90,8 @@ Inductive ppc :=
 | PBump (r : rec)       (* curr_buf->size += 16 *)
 | PCopy (r : rec)       (* mcount_memcpy4(ptr, argbuf + 4, size) *)
 | PBumpPl (r : rec)     (* curr_buf->size += ALIGN(size, 8) *)
+| PPrepStart            (* prepare_shmem_buffer: both buffers exist; REC_START for index 0 *)
+| PPrepFlag             (* prepare_shmem_buffer: buffer[0]->flag = RECORDING | NEW (curr = 0) *)
 | PDark.                (* nothing this thread does can reach the recorder any more: it is done (mtd_dtor,
                            shmem.done), or the message pipe was closed (mcount_trace_finish, fd = -1) and it
                            moved on to a buffer whose REC_START was never delivered *)
@@ -199,6 +201,10 @@ Definition pstep (single : bool) (cap : nat) (s : st) : st :=
       with_pc PIdle (with_done (done s ++ [r])
                        (on_cur (fun b => set_size (b_size b + off + align8 (length (r_pl r))) b) s))
   | PDark => s
+  | PPrepStart => with_pc PPrepFlag (with_chan (chan s ++ [MStart 0]) s)
+  | PPrepFlag =>
+      with_pc PIdle (with_curr (Some 0)
+        (with_bufs (upd 0 (set_flag {| f_new := true; f_written := false; f_rec := true |}) (bufs s)) s))
   end.
 
 (* shmem_finish at a normal thread end: REC_END for the current buffer *)
@@ -218,6 +224,7 @@ Definition pstep_closed (single : bool) (cap : nat) (s : st) : st :=
   match pc s with
   | PFinish r => with_pc PDark (with_todo [] s)                     (* REC_END lost; curr stays announced *)
   | PStart r => with_pc PDark (with_todo [] (with_curr None s))     (* REC_START lost: the new buffer is unknown *)
+  | PPrepStart => with_pc PDark (with_todo [] s)                    (* ... the thread's very first buffer *)
   | _ => pstep single cap s
   end.
 (* mtd_dtor between two hook calls: a normal thread end sends REC_END (shmem_finish); after a finish /
@@ -287,6 +294,11 @@ Definition init (recs : list rec) : st :=
                fresh_buf ];
      curr := Some 0; chan := [MStart 0]; shl := []; wl := []; file := [];
      pc := PIdle; todo := recs; done := [] |}.
+
+(* before the thread's first hook call has set it up (mcount_prepare -> prepare_shmem_buffer) *)
+Definition init0 (recs : list rec) : st :=
+  {| bufs := [fresh_buf; fresh_buf]; curr := None; chan := []; shl := []; wl := []; file := [];
+     pc := PPrepStart; todo := recs; done := [] |}.
 
 (* the window between the two size updates of a record with payload *)
 Definition in_window (single : bool) (s : st) : bool :=
@@ -552,7 +564,7 @@ Fixpoint bad_indices {A} (ok : A -> bool) (l : list A) (i : nat) : list nat :=
 (* visible events of the producer: a change of (size, flag) of some buffer *)
 Definition visible (single : bool) (s : st) : bool :=
   match pc s with
-  | PPick _ => true
+  | PPick _ | PPrepFlag => true
   | PBump r => negb (single && has_pl r)
   | PBumpPl r => single || negb (Nat.eqb (align8 (length (r_pl r))) 0)
   | _ => false
@@ -620,7 +632,7 @@ Definition tc_groups (tc : tcase) : list (list rec) :=
   if tc_flush tc then rss ++ [segv_flush stk] else rss.
 Definition tc_state (tc : tcase) : st :=
   let s := tie_ops (tc_single tc) (tc_cap tc) 0 (tc_close tc) (tc_groups tc) (tc_sync tc) (tc_kill tc)
-                   (init (concat (tc_groups tc))) in
+                   (init0 (concat (tc_groups tc))) in
   if (tc_end tc =? 1)%N then dstep true s else if (tc_end tc =? 2)%N then dstep false s else s.
 Definition obs (s : st) : list nat * list N * list nat * list N :=
   let s1 := drain s in
